@@ -66,7 +66,7 @@ func attrsObs(f func() ([]file.Attribute, error)) Sx {
 
 // c06Inspect writes data to <tmp>/c06/<name>, runs every candidate parser of file.Inspect
 // on it (table order) and file.Inspect itself.
-func c06Inspect(c *Ctx, name string, data []byte) (SL, Sx) {
+func c06Inspect(c *Ctx, name string, data []byte, targets ...string) (SL, Sx) {
 	dir := filepath.Join(c.Tmp, "c06")
 	os.MkdirAll(dir, 0o755)
 	p := filepath.Join(dir, name)
@@ -82,6 +82,16 @@ func c06Inspect(c *Ctx, name string, data []byte) (SL, Sx) {
 			continue
 		}
 		i := i
+		own := false
+		for _, t := range targets {
+			own = own || t == rows[i].Parser
+		}
+		if own {
+			// the container parser under test is the model's business: only its place among the candidates
+			// is recorded (the input of a case then does not change when the parser is repaired)
+			cands = append(cands, SL{S(rows[i].Parser), SL{}})
+			continue
+		}
 		res := infoObs(func() (file.Info, error) {
 			return file.VerifRunRowParser(i, file.Info{Path: p, Size: int64(len(data))}, data)
 		})
@@ -259,7 +269,25 @@ func c06SSHCase(c *Ctx, op, tag string, data []byte, its []sshItem, crlf bool, t
 		ch := ch
 		oracle = append(oracle, SL{SB(ch), attrsObs(func() ([]file.Attribute, error) { return lineFn(ch) })})
 	}
-	cands, insp := c06Inspect(c, name, data)
+	// the hypothesis of the theorems about the library, sampled: an entry line with and without a CR at its end
+	for _, it := range its {
+		if it.kind != 0 {
+			continue
+		}
+		for _, ch := range [][]byte{[]byte(it.line), []byte(it.line + "\r")} {
+			if seen[string(ch)] {
+				continue
+			}
+			seen[string(ch)] = true
+			ch := ch
+			oracle = append(oracle, SL{SB(ch), attrsObs(func() ([]file.Attribute, error) { return lineFn(ch) })})
+		}
+	}
+	target := "SSHAuthorizedKeys"
+	if hosts {
+		target = "SSHKnownHosts"
+	}
+	cands, insp := c06Inspect(c, name, data, target)
 	layout, alone := SL{}, SL{}
 	if its != nil {
 		items := SL{}
@@ -524,7 +552,7 @@ func c06PEMCase(c *Ctx, tag string, data []byte, its []pemItem) {
 		off++
 	}
 	name := "bundle.pem"
-	cands, insp := c06Inspect(c, name, data)
+	cands, insp := c06Inspect(c, name, data, "PEMFile")
 	layout, alone := SL{}, SL{}
 	if its != nil {
 		items := SL{}
@@ -930,7 +958,7 @@ func c06JKSCase(c *Ctx, tag string, data []byte, magic []byte, version uint32, e
 	if jce {
 		name, parser = "store.jceks", file.JCEKeystore
 	}
-	cands, insp := c06Inspect(c, name, data)
+	cands, insp := c06Inspect(c, name, data, "JavaKeystore", "JCEKeystore")
 	layout, alone := SL{}, SL{}
 	if es != nil {
 		ents := SL{}
